@@ -300,7 +300,7 @@ def _gen_pivot(rng):
             columns.append([V.normalize(dt, rng.choice(dom)) for _ in range(nr)])
         else:
             columns.append(_column(dt, nr, rng, DATA_POOLS))
-    ck = rng.choice(['str', 'str', 'int'])
+    ck = 'int' if rng.random() < 0.12 else 'str'
     cols = rng.sample(_STR_COLS, nc) if ck == 'str' else rng.sample(range(0, 40), nc)
     rk = rng.choice(['auto', 'str'])
     rows = L.labels_for(rk, nr, rng)
@@ -452,6 +452,24 @@ def generate(ctx):
 
 # --------------------------------------------------------------------------------------
 # helpers for the judges
+
+_FOLD_AFTER = 3
+
+
+def _violate(ctx, what, detail=None, klass=None):
+    """ctx.violation, except that once a (what, klass) class has produced _FOLD_AFTER witnesses
+    in this shard further observations of exactly that class are only counted (the classifier
+    reads nothing but `what` and `klass`, so they could not be classified differently)."""
+    seen = ctx.__dict__.setdefault('_c20_classes', {})
+    sig = (what, repr(sorted((klass or {}).items(), key=lambda kv: kv[0])))
+    seen[sig] = seen.get(sig, 0) + 1
+    if seen[sig] > _FOLD_AFTER and not ctx.current_is_probe:
+        ctx.violation_total += 1
+        ctx.tally('violations_by_what', what)
+        ctx.tally('violations_folded_same_class', what)
+        return
+    ctx.violation(what, detail=detail, klass=klass)
+
 
 def _call(fn):
     try:
@@ -745,7 +763,7 @@ def _judge_restack(s_in, depth_level, fill, s_out, unstack):
 
 def _report(ctx, problems, klass):
     for what, detail in problems[:2]:
-        ctx.violation(what, detail=detail, klass=dict(klass))
+        _violate(ctx, what, detail=detail, klass=dict(klass))
 
 
 def _refusal_ok(exc, status, tree=True):
@@ -795,11 +813,11 @@ def _check_setidx(case, ctx):
         if _refusal_ok(exc, status, tree):
             ctx.tally('refused', f'{op}:{status}' + ('' if tree else ':non_tree'))
             return
-        ctx.violation(f'{op}_raised', detail=_detail_exc(exc), klass=_exc_klass(klass, exc))
+        _violate(ctx, f'{op}_raised', detail=_detail_exc(exc), klass=_exc_klass(klass, exc))
         return
     s_out = canon.snap(out)
     if status == 'dup':
-        ctx.violation('repeated_labels_accepted', detail={'got': canon.brief(s_out, 600)}, klass=klass)
+        _violate(ctx, 'repeated_labels_accepted', detail={'got': canon.brief(s_out, 600)}, klass=klass)
         return
     if hier and case['reorder'] and status != 'unique':
         ctx.tally('not_judged', 'reordered rows under labels that repeat (NaN/NaT) or are equal only across types')
@@ -822,7 +840,7 @@ def _check_setidx(case, ctx):
     if out.columns.depth > 1:
         import static_frame as sf
         if exc2 is None or not isinstance(exc2, sf.ErrorInitFrame):
-            ctx.violation('unset_index_hierarchical_columns_not_refused', detail=_detail_exc(exc2) if exc2 else {}, klass=k2)
+            _violate(ctx, 'unset_index_hierarchical_columns_not_refused', detail=_detail_exc(exc2) if exc2 else {}, klass=k2)
         else:
             ctx.tally('refused', 'unset_index:hierarchical_columns')
         return
@@ -832,7 +850,7 @@ def _check_setidx(case, ctx):
         if clash and _is_sf_index_error(exc2):
             ctx.tally('refused', 'unset_index:name_equals_a_column_label')
             return
-        ctx.violation('unset_index_raised', detail=_detail_exc(exc2), klass=_exc_klass(k2, exc2))
+        _violate(ctx, 'unset_index_raised', detail=_detail_exc(exc2), klass=_exc_klass(k2, exc2))
         return
     s2 = canon.snap(out2)
     problems = _judge_unset(s_out, tuple(out.index.names), names, s2)
@@ -846,7 +864,7 @@ def _check_setidx(case, ctx):
         for q, c in enumerate(list(cols) + kept):
             lab = s_in['columns']['labels'][c]
             if (q >= len(cols) and s2['columns']['labels'][q] != lab) or not R.seq_leq(s_in['cols'][c], s2['cols'][q]):
-                ctx.violation('set_unset_roundtrip_cell_changed', detail={'column': lab, 'expected': s_in['cols'][c], 'got': s2['cols'][q],
+                _violate(ctx, 'set_unset_roundtrip_cell_changed', detail={'column': lab, 'expected': s_in['cols'][c], 'got': s2['cols'][q],
                                                                           'got_label': s2['columns']['labels'][q]}, klass=k2)
                 return
 
@@ -868,12 +886,12 @@ def _check_unset(case, ctx):
     if f.columns.depth > 1:
         import static_frame as sf
         if exc is None or not isinstance(exc, sf.ErrorInitFrame):
-            ctx.violation('unset_index_hierarchical_columns_not_refused', detail=_detail_exc(exc) if exc else {}, klass=klass)
+            _violate(ctx, 'unset_index_hierarchical_columns_not_refused', detail=_detail_exc(exc) if exc else {}, klass=klass)
         else:
             ctx.tally('refused', 'unset_index:hierarchical_columns')
         return
     if exc is not None:
-        ctx.violation('unset_index_raised', detail=_detail_exc(exc), klass=_exc_klass(klass, exc))
+        _violate(ctx, 'unset_index_raised', detail=_detail_exc(exc), klass=_exc_klass(klass, exc))
         return
     _report(ctx, _judge_unset(s_in, tuple(f.index.names), names, canon.snap(out)), klass)
 
@@ -906,7 +924,7 @@ def _check_shift(case, ctx):
              'n_moved': len(pos), 'scalar': case['scalar'], 'all_moved': len(pos) == len(opp)}
     out, exc = _call(lambda: f.relabel_shift_in(key, axis=axis))
     if exc is not None:
-        ctx.violation('relabel_shift_in_raised', detail=_detail_exc(exc), klass=_exc_klass(klass, exc))
+        _violate(ctx, 'relabel_shift_in_raised', detail=_detail_exc(exc), klass=_exc_klass(klass, exc))
         return
     s1 = canon.snap(out)
     problems = _judge_shift_in(s_in, pos, axis, s1)
@@ -941,7 +959,7 @@ def _check_shift(case, ctx):
         if mode != 'added' and _refusal_ok(exc2, status, tree):
             ctx.tally('refused', f'relabel_shift_out:{status}' + ('' if tree else ':non_tree'))
             return
-        ctx.violation('relabel_shift_out_raised', detail=_detail_exc(exc2), klass=_exc_klass(k2, exc2))
+        _violate(ctx, 'relabel_shift_out_raised', detail=_detail_exc(exc2), klass=_exc_klass(k2, exc2))
         return
     s2 = canon.snap(out2)
     problems = _judge_shift_out(s1, _names(tgt1), moved, axis, s2)
@@ -952,7 +970,7 @@ def _check_shift(case, ctx):
         a, b = _canon_cell_map(s_in), _canon_cell_map(s2)
         bad = [k for k in a if k not in b or not R.leq(a[k], b[k])]
         if bad or len(a) != len(b):
-            ctx.violation('shift_roundtrip_cell_changed', detail={'key': bad[:1], 'expected': [a[k] for k in bad[:1]],
+            _violate(ctx, 'shift_roundtrip_cell_changed', detail={'key': bad[:1], 'expected': [a[k] for k in bad[:1]],
                                                                    'got': [b.get(k) for k in bad[:1]], 'n_in': len(a), 'n_out': len(b)},
                           klass=k2)
 
@@ -977,7 +995,7 @@ def _check_shift_out(case, ctx):
         if _refusal_ok(exc, status, tree):
             ctx.tally('refused', f'relabel_shift_out:{status}' + ('' if tree else ':non_tree'))
             return
-        ctx.violation('relabel_shift_out_raised', detail=_detail_exc(exc), klass=_exc_klass(klass, exc))
+        _violate(ctx, 'relabel_shift_out_raised', detail=_detail_exc(exc), klass=_exc_klass(klass, exc))
         return
     tgt = f.index if axis == 0 else f.columns
     _report(ctx, _judge_shift_out(s_in, _names(tgt), moved, axis, canon.snap(out)), klass)
@@ -994,7 +1012,7 @@ def _check_rehier(case, ctx):
     klass = {'op': 'rehierarch', 'axis': axis, 'perm': list(perm), 'identity': perm == sorted(perm)}
     out, exc = _call(lambda: f.rehierarch(index=list(perm)) if axis == 0 else f.rehierarch(columns=list(perm)))
     if exc is not None:
-        ctx.violation('rehierarch_raised', detail=_detail_exc(exc), klass=_exc_klass(klass, exc))
+        _violate(ctx, 'rehierarch_raised', detail=_detail_exc(exc), klass=_exc_klass(klass, exc))
         return
     _report(ctx, _judge_rehier(s_in, perm, axis, canon.snap(out)), klass)
 
@@ -1041,7 +1059,7 @@ def _check_stack(case, ctx):
         if _is_sf_index_error(exc) and not (klass['groups_tree'] and klass['targets_tree']):
             ctx.tally('refused', f'{op}:non_tree_labels')
             return
-        ctx.violation(f'{op}_raised', detail=_detail_exc(exc), klass=_exc_klass(klass, exc))
+        _violate(ctx, f'{op}_raised', detail=_detail_exc(exc), klass=_exc_klass(klass, exc))
         return
     s1 = canon.snap(out)
     problems, expected = _judge_restack(s_in, dl, fill, s1, unstack)
@@ -1063,7 +1081,7 @@ def _check_stack(case, ctx):
         if _is_sf_index_error(exc2) and not (k2['groups_tree'] and k2['targets_tree']):
             ctx.tally('refused', 'pivot_unstack:non_tree_labels')
             return
-        ctx.violation('pivot_unstack_raised', detail=_detail_exc(exc2), klass=_exc_klass(k2, exc2))
+        _violate(ctx, 'pivot_unstack_raised', detail=_detail_exc(exc2), klass=_exc_klass(k2, exc2))
         return
     s2 = canon.snap(out2)
     problems, _ = _judge_restack(s1, dl2, fill2, s2, True)
@@ -1079,13 +1097,13 @@ def _check_stack(case, ctx):
             key = (r, (g or zero) + t)
             seen.add(key)
             if key not in gmap or not R.leq(s_in['cols'][j][i], gmap[key]):
-                ctx.violation('stack_unstack_roundtrip_cell_changed', detail={'key': key, 'expected': s_in['cols'][j][i],
+                _violate(ctx, 'stack_unstack_roundtrip_cell_changed', detail={'key': key, 'expected': s_in['cols'][j][i],
                                                                                'got': gmap.get(key)}, klass=k2)
                 return
     fills = (cs(fill), cs(fill2))
     for key, v in gmap.items():
         if key not in seen and not any(R.leq(x, v) for x in fills):
-            ctx.violation('stack_unstack_roundtrip_extra_cell_not_fill', detail={'key': key, 'got': v}, klass=k2)
+            _violate(ctx, 'stack_unstack_roundtrip_extra_cell_not_fill', detail={'key': key, 'got': v}, klass=k2)
             return
 
 
@@ -1163,28 +1181,29 @@ def _check_pivot(case, ctx):
              'n_funcs': len(funcs), 'func_default': func is None, 'data_omitted': omitted, 'fill_kind': type(fill).__name__,
              'index_fields_object': len(ifs) > 1 and _resolves_to_object(idx_dts),
              'first_appearance_tree': R.is_tree([tuple(t) for t in idx_py]) if len(ifs) > 1 else True,
+             'index_fields_have_datetime': any(spec.dtypes[p].startswith('M8') for p in ifs),
              'columns_field_labels_iterable': all(isinstance(lab(p), (str, tuple)) for p in cfs),
              'index_field_bool': any(spec.dtypes[p] == 'bool' for p in ifs),
              'columns_field_bool': any(spec.dtypes[p] == 'bool' for p in cfs)}
     ctx.sample({'pivot': spec.brief(), 'index': ifs, 'columns': cfs, 'data': dfs, 'func': repr(func), 'fill': repr(fill)})
     out, exc = _call(lambda: f.pivot(arg(ifs), **kw))
     if exc is not None:
-        ctx.violation('pivot_raised', detail=_detail_exc(exc), klass=_exc_klass(klass, exc))
+        _violate(ctx, 'pivot_raised', detail=_detail_exc(exc), klass=_exc_klass(klass, exc))
         return
     s = canon.snap(out)
     if s.get('k') != 'Frame':
-        ctx.violation('pivot_not_a_frame', detail={'got': canon.brief(s)}, klass=klass)
+        _violate(ctx, 'pivot_not_a_frame', detail={'got': canon.brief(s)}, klass=klass)
         return
     got_rows, got_cols = _rows_of(s['index']), _rows_of(s['columns'])
     if len(got_rows) != len(ikeys) or len(got_cols) != len(exp_cols):
-        ctx.violation('pivot_labels_mismatch', detail={'expected_rows': ikeys, 'got_rows': got_rows,
+        _violate(ctx, 'pivot_labels_mismatch', detail={'expected_rows': ikeys, 'got_rows': got_rows,
                                                        'expected_columns': [e[0] for e in exp_cols], 'got_columns': got_cols}, klass=klass)
         return
     row_at, col_at, used = {}, {}, set()
     for ik in ikeys:
         q = _find(ik, got_rows, used)
         if q is None:
-            ctx.violation('pivot_labels_mismatch', detail={'missing_row': ik, 'got_rows': got_rows}, klass=klass)
+            _violate(ctx, 'pivot_labels_mismatch', detail={'missing_row': ik, 'got_rows': got_rows}, klass=klass)
             return
         used.add(q)
         row_at[ik] = q
@@ -1192,7 +1211,7 @@ def _check_pivot(case, ctx):
     for e in exp_cols:
         q = _find(e[0], got_cols, used)
         if q is None:
-            ctx.violation('pivot_labels_mismatch', detail={'missing_column': e[0], 'got_columns': got_cols}, klass=klass)
+            _violate(ctx, 'pivot_labels_mismatch', detail={'missing_column': e[0], 'got_columns': got_cols}, klass=klass)
             return
         used.add(q)
         col_at[e[0]] = q
@@ -1227,7 +1246,7 @@ def _check_pivot(case, ctx):
         sub = [b for b in bad if b[0] == kind]
         detail = {'cells': [{'kind': b[0], 'func': b[1], 'row': b[2], 'column': b[3], 'expected': b[4], 'got': b[5]} for b in sub[:4]],
                   'n_bad': len(sub), 'n_bad_all_kinds': len(bad)}
-        ctx.violation(whats.get(kind, 'pivot_cell_mismatch'), detail=detail,
+        _violate(ctx, whats.get(kind, 'pivot_cell_mismatch'), detail=detail,
                       klass=dict(klass, funcs=sorted({b[1] for b in sub}), wrong_cell_group=kind))
 
 
@@ -1334,23 +1353,23 @@ def _check_join(case, ctx):
     out, exc = _call(lambda: getattr(fl, 'join_' + how)(fr, **kw))
     if path == 'many_refused':
         if exc is None:
-            ctx.violation('join_many_without_composite_index_not_refused', detail={'got': canon.brief(canon.snap(out), 600)}, klass=klass)
+            _violate(ctx, 'join_many_without_composite_index_not_refused', detail={'got': canon.brief(canon.snap(out), 600)}, klass=klass)
         elif not isinstance(exc, RuntimeError):
-            ctx.violation('join_raised', detail=_detail_exc(exc), klass=_exc_klass(klass, exc))
+            _violate(ctx, 'join_raised', detail=_detail_exc(exc), klass=_exc_klass(klass, exc))
         else:
             ctx.tally('refused', 'join:many_without_composite_index')
         return
     if exc is not None:
-        ctx.violation('join_raised', detail=_detail_exc(exc), klass=_exc_klass(klass, exc))
+        _violate(ctx, 'join_raised', detail=_detail_exc(exc), klass=_exc_klass(klass, exc))
         return
     s = canon.snap(out)
     if s.get('k') != 'Frame':
-        ctx.violation('join_not_a_frame', detail={'got': canon.brief(s)}, klass=klass)
+        _violate(ctx, 'join_not_a_frame', detail={'got': canon.brief(s)}, klass=klass)
         return
     ncl, ncr = ls.shape[1], rs.shape[1]
     exp_names = tuple(cs(case['lt'].format(c)) for c in ls.cols) + tuple(cs(case['rt'].format(c)) for c in rs.cols)
     if s['columns']['labels'] != exp_names:
-        ctx.violation('join_column_names_wrong', detail={'expected': exp_names, 'got': s['columns']['labels']}, klass=klass)
+        _violate(ctx, 'join_column_names_wrong', detail={'expected': exp_names, 'got': s['columns']['labels']}, klass=klass)
         return
     cfill = cs(fill)
     src = R.join_rows(pairs, nl, nr, how)
@@ -1371,12 +1390,12 @@ def _check_join(case, ctx):
             keep = [q for q in range(ncl + ncr) if q < ncl or (q - ncl) not in hazard]
             m2, e2 = R.multiset_match([tuple(r[q] for q in keep) for r in expected], [tuple(r[q] for q in keep) for r in got], R.seq_leq)
             if not m2 and not e2:
-                ctx.violation('join_right_column_retyped_by_list_inference',
+                _violate(ctx, 'join_right_column_retyped_by_list_inference',
                               detail={'missing_rows': missing[:3], 'unexpected_rows': extra[:3], 'columns': sorted(hazard)},
                               klass=dict(klass, hazards=sorted(set(hazard.values()))))
                 return
     if missing or extra:
-        ctx.violation('join_rows_mismatch', detail={'missing_rows': missing[:3], 'unexpected_rows': extra[:3],
+        _violate(ctx, 'join_rows_mismatch', detail={'missing_rows': missing[:3], 'unexpected_rows': extra[:3],
                                                     'n_expected': len(expected), 'n_got': len(got), 'pairs': pairs[:8]}, klass=klass)
         return
     if composite:
@@ -1388,10 +1407,10 @@ def _check_join(case, ctx):
             exp_by_label[('tuple', (a, b))] = row_of(i, j)
         for q, lab in enumerate(s['index']['labels']):
             if lab not in exp_by_label:
-                ctx.violation('join_composite_label_wrong', detail={'label': lab, 'expected_labels': list(exp_by_label)[:8]}, klass=klass)
+                _violate(ctx, 'join_composite_label_wrong', detail={'label': lab, 'expected_labels': list(exp_by_label)[:8]}, klass=klass)
                 return
             if not R.seq_leq(exp_by_label[lab], got[q]):
-                ctx.violation('join_row_not_from_its_labelled_sources', detail={'label': lab, 'expected': exp_by_label[lab], 'got': got[q]},
+                _violate(ctx, 'join_row_not_from_its_labelled_sources', detail={'label': lab, 'expected': exp_by_label[lab], 'got': got[q]},
                               klass=klass)
                 return
 
@@ -1458,6 +1477,10 @@ def probes(ctx):
     # pivot: index fields of different kinds in a non-tree first-appearance order
     P3 = _fs([0, 1, 2], ['k', 'n', 'v'], 'auto', 'str', ['<U1', 'int64', 'int64'], [['a', 1, 10], ['b', 1, 20], ['a', 2, 30]])
     out.append(pivot(P3, [0, 1], [], [2], 'sum'))
+    # pivot: str and datetime64 index fields (tree order) with a columns field: every present cell comes back as fill
+    P6 = _fs([0, 1, 2], ['k', 'd', 'c', 'v'], 'auto', 'str', ['<U1', 'M8[D]', 'int64', 'int64'],
+             [['a', _d('2020-01-01'), 1, 10], ['a', _d('2020-01-02'), 1, 20], ['b', _d('2020-01-02'), 2, 30]])
+    out.append(pivot(P6, [0, 1], [2], [3], 'sum'))
     # pivot: int column label as columns field with two data fields
     P4 = _fs([0, 1], [10, 11, 12, 13], 'auto', 'int', ['<U1', 'int64', 'int64', 'int64'], [['a', 1, 5, 6], ['b', 2, 7, 8]])
     out.append(pivot(P4, [0], [1], [2, 3], 'sum'))
